@@ -123,7 +123,9 @@ Definition time_in (t : gotime) (off : Z) (name : string) : gotime :=
 (* Time.UnixNano() is int64 arithmetic: wraps outside 1677-09-21 .. 2262-04-11 *)
 Definition unix_nano (t : gotime) : Z := wrap64 (unix_sec t * 1000000000 + nsec t).
 (* date.go: timeToMS(t) = t.UnixNano() / int64(time.Millisecond), truncated division *)
-Definition time_to_ms (t : gotime) : Z := Z.quot (unix_nano t) 1000000.
+(* repaired in /repo: t.Unix()*1000 + int64(t.Nanosecond())/1e6, no nanosecond overflow
+   (0 <= nsec < 10^9, so the division is a floor; int64 arithmetic wraps only beyond ±292 million years) *)
+Definition time_to_ms (t : gotime) : Z := wrap64 (wrap64 (unix_sec t * 1000) + nsec t / 1000000).
 
 (* ------------------------------------------------------------------------------------------ *)
 (** * small string helpers *)
